@@ -253,6 +253,9 @@ class Interp:
 
     @staticmethod
     def _eq(a, b):
+        for x in (a, b):
+            if isinstance(x, tuple) and x and x[0] in ("expr", "elt"):
+                raise Unknown("comparison with the unevaluated value %s" % (x[1],))
         if a is None or b is None:
             return a is b
         if isinstance(a, Sym) or isinstance(b, Sym):
@@ -272,6 +275,17 @@ class Interp:
             return
         val = st.value
         for t in tgts:
+            if isinstance(t, (ast.Tuple, ast.List)) and isinstance(val, (ast.Tuple, ast.List)) and len(val.elts) == len(t.elts) and all(chain(x) for x in t.elts):
+                vals = []
+                for v in val.elts:
+                    try:
+                        vals.append(self.ev(v))
+                    except Unknown:
+                        vals.append(("expr", stmt_text(v, 60)))
+                for x, v in zip(t.elts, vals):
+                    self._kill(chain(x))
+                    self.env[chain(x)] = v
+                continue
             if isinstance(t, (ast.Tuple, ast.List)):
                 for x in t.elts:
                     c = chain(x)
